@@ -748,6 +748,8 @@ def run(ctx) -> None:
     from .c14 import r14_6_7 as _r14_6_7
     ctx.guard_as("R04.19", _r14_6_7, "jwe")  # a header member the library adds (epk, iv, tag, kid) replaces what the position held: re-encrypting an object works
     ctx.guard(r04_18)
+    from .c18 import r18_6 as _r18_6
+    ctx.guard_as("R04.24", _r18_6)  # "general JSON with several recipients of mixed algorithms ... every key of the required curve": the ephemeral key of a key-agreement recipient is generated for THAT recipient (on its key's curve), never taken from a cache shared between recipients (seed C04-s: one ephemeral pair per key type - P-256 + P-384 recipients could not be encrypted)
     from .common import member_crossing
     ctx.guard(member_crossing, "R04.17", "jwe")  # named members are filled from the value of the same name (generic crossing rule, rules/common.py)
     from .common import forwarding_discipline
